@@ -160,11 +160,66 @@ func livenessNeverFalse(w *World) {
 	T := w.KnobPick("server_hb_timeout", 3, 10, 90)
 	scfg := map[string]any{"bindAddr": "10.0.0.1", "bindPort": 7000, "auth": map[string]any{"token": token},
 		"transport": map[string]any{"tcpMux": tcpMux, "heartbeatTimeout": T}}
+	busy := w.KnobPick("busy_session", 0, 0, 1, 3)
+	regDelay := time.Duration(w.KnobPick("busy.plugin_ms", 100, 500, 2000)) * time.Millisecond
+	if busy > 0 {
+		restore := w.PlugN.Enter()
+		pln, perr := w.Net.Listen("tcp", "10.0.4.1:9800")
+		restore()
+		if perr != nil {
+			w.Fail("%v", perr)
+		}
+		w.PlugN.Go(func() {
+			(&http.Server{Handler: http.HandlerFunc(func(rw http.ResponseWriter, _ *http.Request) {
+				time.Sleep(regDelay)
+				rw.Header().Set("Content-Type", "application/json")
+				rw.Write([]byte(`{"reject":false,"unchange":true}`))
+			})}).Serve(pln)
+		})
+		scfg["httpPlugins"] = []map[string]any{{"name": "slow", "addr": "10.0.4.1:9800", "path": "/handler", "ops": []string{"NewProxy"}}}
+	}
 	env := w.newLcEnv(scfg, token, PeerOpts{Server: "10.0.0.1:7000", Mux: tcpMux, Token: token})
 	env.start()
 	c := env.newClient("", 0)
 	if rr, err := c.login(""); err != nil || mstr(rr, "error") != "" {
 		w.Fail("login: %v %v", err, rr)
+	}
+	if busy > 0 {
+		// the session is busy: it sends a batch of registrations, each of which the server's plugin takes a while to
+		// decide, and keeps sending its valid heartbeats at the configured interval all the while
+		w.Probe("liveness.busy_session")
+		w.Check("C14.never-false-teardown-busy-session")
+		nreg := int(time.Duration(busy)*time.Duration(T)*time.Second/regDelay) / 4 // busy=1: a quarter of a timeout of plugin time (plus the calls' round trips), busy=3: three quarters and more
+		for i := 0; i < nreg; i++ {
+			c.Send(tNewProxy, M{"proxy_name": fmt.Sprintf("busy%d", i), "proxy_type": "stcp", "sk": "k"})
+		}
+		total := time.Duration(nreg) * regDelay
+		t0 := w.Net.Now()
+		for w.Net.Now()-t0 < total+time.Duration(T)*time.Second {
+			time.Sleep(time.Duration(T) * time.Second / 3)
+			if c.IsClosed() {
+				answered := 0
+				c.mu.Lock()
+				for _, m := range c.Inbox {
+					if m.Type == tNewProxyResp {
+						answered++
+					}
+				}
+				c.mu.Unlock()
+				sig := "busy-session-torn-down"
+				if answered < nreg && w.Net.Now()-t0 >= time.Duration(T)*time.Second-time.Second {
+					// closed a full timeout after the batch arrived, the batch still being worked on: the server's reader
+					// was busy with the registrations all that time and read none of the heartbeats
+					sig = "valid-heartbeats-starved-behind-slow-registrations"
+				}
+				viol("false-teardown", sig, "heartbeatTimeout %ds, valid heartbeats every %ds; the session also sent %d registrations which a server plugin takes %v each to decide (%v in all, %d answered so far): the server closed the session %v after the batch was sent", T, T/3, nreg, regDelay, total, answered, w.Net.Now()-t0)
+				return
+			}
+			c.Ping(true, token)
+		}
+		w.SetSample(map[string]any{"scenario": "never-false-busy", "T": T, "registrations": nreg})
+		w.Nontrivial()
+		return
 	}
 	// the configured interval is a third of the timeout; jitter stays below another third
 	n := w.KnobPick("beats", 100, 2000, 20000)
@@ -307,6 +362,12 @@ func livenessHealRealServer(w *World) {
 	// a client with many proxies (more than any queue between its parts holds): all of them are owed the same
 	if w.KnobBool("many_proxies", 15) {
 		w.Probe("liveness.many_proxies")
+		// (the server handles the messages of one session one after the other: 130 registrations of 800 ms each
+		// keep it from reading the client's heartbeats for longer than the heartbeat timeout. That is the listed
+		// finding of scenario never-false/busy-session; here the registrations stay short enough not to trip it)
+		if slowReg > 200*time.Millisecond {
+			slowReg = 200 * time.Millisecond
+		}
 		pr := ccfg["proxies"].([]map[string]any)
 		for i := 0; i < 130; i++ {
 			pr = append(pr, map[string]any{"name": fmt.Sprintf("s%03d", i), "type": "stcp", "localIP": "127.0.0.1", "localPort": 9300, "secretKey": "k"})
@@ -360,8 +421,11 @@ func livenessHealRealServer(w *World) {
 		}
 		return string(buf[:n]) == msg
 	}
-	if !w.WaitUntil(60*time.Second, 200*time.Millisecond, func() bool { return roundTrip(20003) && roundTrip(20004) }) {
-		viol("heal", "initial-tunnel-not-up", "tunnels not usable 60 s after start")
+	// (registrations of one session are handled one after the other: with a slow plugin each takes that long)
+	nprox := len(ccfg["proxies"].([]map[string]any))
+	regAll := time.Duration(nprox) * (slowReg + 50*time.Millisecond)
+	if !w.WaitUntil(60*time.Second+regAll, 200*time.Millisecond, func() bool { return roundTrip(20003) && roundTrip(20004) }) {
+		viol("heal", "initial-tunnel-not-up", "tunnels not usable %v after start", 60*time.Second+regAll)
 		return
 	}
 	// the operator may change the configuration while the client is cut off (a proxy added, another one removed):
@@ -450,7 +514,7 @@ func livenessHealRealServer(w *World) {
 				// stand in the way of its proxies. Bound: one registration retry interval of the client (30 s) + margin
 				w.Check("C14.heals-after-half-open-and-refusals")
 				t0 := w.Net.Now()
-				if !w.WaitUntil(45*time.Second, 500*time.Millisecond, func() bool {
+				if !w.WaitUntil(45*time.Second+regAll, 500*time.Millisecond, func() bool {
 					for _, p := range ports {
 						if !roundTrip(p) {
 							return false
@@ -509,7 +573,7 @@ func livenessHealRealServer(w *World) {
 	// bound: heartbeat/mux detection of the dead transport (<= 90 s + 40 s) + the largest back-off (20 s, jittered) + login
 	healedAt := w.Net.Now()
 	w.Check("C14.heals-after-faults")
-	bound := 200 * time.Second
+	bound := 200*time.Second + regAll // (+ one registration after the other, each as slow as the plugin makes it)
 	ok := w.WaitUntil(bound, 500*time.Millisecond, func() bool {
 		for _, p := range ports {
 			if !roundTrip(p) {
